@@ -73,6 +73,63 @@ var (
 	reApplyH    = regexp.MustCompile(`"applyHeight":[0-9]+`)
 )
 
+// config: chain configuration / block height schedule under which histories run.
+type config struct {
+	Name       string
+	P012       bool   // Proposal012 active: a refund is due at now+36000
+	Base, Step uint64 // height of the first block, distance between blocks
+}
+
+var configs = map[string]config{
+	// the default: all forks active, consecutive heights
+	"p012": {Name: "p012", P012: true, Base: baseHeight, Step: 1},
+	// Proposal012 not yet active: proposer refunds are due at the end of the reward period
+	// (+ refund blocks), so refunds made in different blocks of one period share a due height
+	"pre-p012": {Name: "pre-p012", P012: false, Base: baseHeight, Step: 1},
+	// every block height is a multiple of the reward period: a refund falls due exactly
+	// at the height of the next block, which carries transactions itself
+	"period-heights": {Name: "period-heights", P012: true, Base: refundDelay, Step: refundDelay},
+}
+
+var (
+	cfg      config
+	orig012  uint64
+	have012  bool
+	never012 = uint64(1) << 62
+)
+
+func useConfig(name string) {
+	if name == "" {
+		name = "p012"
+	}
+	c, ok := configs[name]
+	if !ok {
+		harnessFail("unknown configuration %q", name)
+	}
+	if !have012 {
+		orig012, have012 = common.LocalChainConfig.Proposal012Block, true
+	}
+	cfg = c
+	if c.P012 {
+		common.LocalChainConfig.Proposal012Block = orig012
+	} else {
+		common.LocalChainConfig.Proposal012Block = never012
+	}
+	template.R.Due = dueRule
+}
+
+// dueRule: learned from refund_manager.go getRefundHeight (harness validators are in no group).
+func dueRule(now uint64, typ byte) uint64 {
+	if cfg.P012 {
+		return now + refundDelay
+	}
+	if typ == refminers.TypeProp {
+		rb := common.GetRewardBlocks()
+		return (now+rb-1)/rb*rb + common.GetRefundBlocks()
+	}
+	return now + common.GetRefundBlocks()*100
+}
+
 func hx(b []byte) string { return hex.EncodeToString(b) }
 func unhx(s string) []byte {
 	b, err := hex.DecodeString(s)
@@ -167,6 +224,7 @@ func setup() {
 		template.Bal[a] = new(big.Int).Set(w.db.GetBalance(addrOf(a)))
 	}
 	initTotal = w.totalTokens()
+	useConfig("p012")
 }
 
 func cloneModel(m *refminers.Model) *refminers.Model {
@@ -555,9 +613,11 @@ func (w *world) dueHeights() []uint64 {
 	seen := map[uint64]bool{}
 	var out []uint64
 	for _, h := range w.heights {
-		if !seen[h+refundDelay] {
-			seen[h+refundDelay] = true
-			out = append(out, h+refundDelay)
+		for _, typ := range []byte{refminers.TypeProp, refminers.TypeVal} {
+			if d := dueRule(h, typ); !seen[d] {
+				seen[d] = true
+				out = append(out, d)
+			}
 		}
 	}
 	sort.Slice(out, func(i, j int) bool { return out[i] < out[j] })
@@ -1049,7 +1109,9 @@ func sameStrMap(a, b map[string]string) bool {
 
 // unchangedButFee compares two dumps around a transaction that must not change anything
 // but the fee (and the sender's nonce).
-func unchangedButFee(before, after map[string]string, src string) string {
+// releaseAt != 0: the block that carried the transaction has that height, so whatever was
+// scheduled for it is paid out by the block itself (not an effect of the transaction).
+func unchangedButFee(before, after map[string]string, src string, releaseAt uint64) string {
 	var diffs []string
 	keys := map[string]bool{}
 	for k := range before {
@@ -1063,28 +1125,48 @@ func unchangedButFee(before, after map[string]string, src string) string {
 		ks = append(ks, k)
 	}
 	sort.Strings(ks)
-	delta := func(k string) *big.Int {
-		a, _ := new(big.Int).SetString(after[k], 10)
-		b, _ := new(big.Int).SetString(before[k], 10)
+	num := func(s string) *big.Int {
+		a, _ := new(big.Int).SetString(s, 10)
 		if a == nil {
 			a = new(big.Int)
 		}
-		if b == nil {
-			b = new(big.Int)
+		return a
+	}
+	// expected balance changes
+	exp := map[string]*big.Int{}
+	addExp := func(a string, v *big.Int) {
+		if exp[a] == nil {
+			exp[a] = new(big.Int)
 		}
-		return a.Sub(a, b)
+		exp[a].Add(exp[a], v)
+	}
+	addExp(src, new(big.Int).Neg(fee))
+	addExp(feeHex, fee)
+	relPrefix := ""
+	if releaseAt != 0 {
+		relPrefix = fmt.Sprintf("esc:%d:", releaseAt)
+		for k, v := range before {
+			if strings.HasPrefix(k, relPrefix) {
+				addExp(k[len(relPrefix):], num(v))
+			}
+		}
 	}
 	for _, k := range ks {
-		switch k {
-		case "bal:" + src:
-			if d := delta(k); d.Cmp(new(big.Int).Neg(fee)) != 0 {
-				diffs = append(diffs, fmt.Sprintf("sender balance changed by %s", d))
+		switch {
+		case strings.HasPrefix(k, "bal:"):
+			d := new(big.Int).Sub(num(after[k]), num(before[k]))
+			x := exp[k[4:]]
+			if x == nil {
+				x = new(big.Int)
 			}
-		case "bal:" + feeHex:
-			if d := delta(k); d.Cmp(fee) != 0 {
-				diffs = append(diffs, fmt.Sprintf("fee account changed by %s", d))
+			if d.Cmp(x) != 0 {
+				diffs = append(diffs, fmt.Sprintf("balance of %s changed by %s, expected %s", tail(k[4:]), d, x))
 			}
-		case "nonce:" + src:
+		case k == "nonce:"+src:
+		case relPrefix != "" && strings.HasPrefix(k, relPrefix):
+			if after[k] != "" {
+				diffs = append(diffs, fmt.Sprintf("%s not released: %q", k, after[k]))
+			}
 		default:
 			if before[k] != after[k] {
 				diffs = append(diffs, fmt.Sprintf("%s: %q -> %q", k, short(before[k]), short(after[k])))
@@ -1119,6 +1201,10 @@ type Case struct {
 	Hist []Op   `json:"hist"`
 	Open int    `json:"open"` // index of the first operation of the shared last block; -1: every operation has its own block
 	Text string `json:"text,omitempty"`
+	Cfg  string `json:"cfg,omitempty"` // configuration name ("" = p012)
+	// refund-schedule family (service level): sequence of RefundManager.Add calls
+	Sched []addStep `json:"sched,omitempty"`
+	Flush bool      `json:"flush,omitempty"`
 }
 
 type nodeResult struct {
@@ -1144,7 +1230,7 @@ func runNode(hist []Op, open int, pre, preSeal map[string]string) nodeResult {
 	var res nodeResult
 	w := newWorld()
 	m := cloneModel(template)
-	next := uint64(baseHeight)
+	next := cfg.Base
 	seq := uint64(0)
 	nClosed := len(hist)
 	if open >= 0 {
@@ -1178,8 +1264,8 @@ func runNode(hist []Op, open int, pre, preSeal map[string]string) nodeResult {
 				if last {
 					addF(oracle(w, m, oracleCtx{}), fmt.Sprintf("after the empty block at due height %d", d))
 				}
-				if d >= next {
-					next = d + 1
+				for next <= d {
+					next += cfg.Step
 				}
 			}
 			if last {
@@ -1195,7 +1281,7 @@ func runNode(hist []Op, open int, pre, preSeal map[string]string) nodeResult {
 		m.EndBlock()
 		_, acc := w.realBlock(next, []*types.Transaction{tx})
 		blocks = append(blocks, blockRec{next, []*types.Transaction{tx}})
-		next++
+		next += cfg.Step
 		if !last {
 			if acc[0] != r.Accepted {
 				harnessFail("prefix decision differs from the explored parent: %s", histString(hist[:i+1], -1))
@@ -1210,7 +1296,7 @@ func runNode(hist []Op, open int, pre, preSeal map[string]string) nodeResult {
 		}
 		res.dump = w.dump()
 		if acc[0] == r.Accepted {
-			fs = rejectedCheck(fs, preSeal, res.dump, t, r)
+			fs = rejectedCheck(fs, preSeal, res.dump, t, r, blocks[len(blocks)-1].h)
 		}
 		addF(fs, "after the block")
 	}
@@ -1257,7 +1343,7 @@ func runNode(hist []Op, open int, pre, preSeal map[string]string) nodeResult {
 		}
 		res.dump = w.dump()
 		if acc == r.Accepted {
-			fs = rejectedCheck(fs, pre, res.dump, t, r)
+			fs = rejectedCheck(fs, pre, res.dump, t, r, 0)
 		}
 		addF(fs, "inside the block, after its last transaction")
 	}
@@ -1287,7 +1373,7 @@ func runNode(hist []Op, open int, pre, preSeal map[string]string) nodeResult {
 		}
 		res.sealDump = w2.dump()
 		if racc[len(racc)-1] == lastRes.Accepted {
-			fs = rejectedCheck(fs, preSeal, res.sealDump, lastTx, lastRes)
+			fs = rejectedCheck(fs, preSeal, res.sealDump, lastTx, lastRes, next)
 		}
 		addF(fs, "after the shared block (block executor)")
 		res.findings = append(res.findings, midF...)
@@ -1309,11 +1395,11 @@ func runNode(hist []Op, open int, pre, preSeal map[string]string) nodeResult {
 // rejectedCheck: a transaction that is rejected (or adds nothing) must leave everything but
 // the fee as it was.  When it did not, that is the finding; ledger mismatches observed at
 // the same time are its consequences.
-func rejectedCheck(fs []finding, before, after map[string]string, t refminers.Tx, r refminers.Result) []finding {
+func rejectedCheck(fs []finding, before, after map[string]string, t refminers.Tx, r refminers.Result, releaseAt uint64) []finding {
 	if before == nil || (r.Accepted && r.Reason != "ok-zero") {
 		return fs
 	}
-	d := unchangedButFee(before, after, t.Source)
+	d := unchangedButFee(before, after, t.Source, releaseAt)
 	if d == "" {
 		return fs
 	}
@@ -1404,7 +1490,10 @@ func report(c *fw.Ctx, hist []Op, open int, res nodeResult, pre, preSeal map[str
 		}
 		seen[f.Sig] = true
 		reported[f.Sig]++
-		cs := Case{Hist: hist, Open: open, Text: histString(hist, open)}
+		cs := Case{Hist: hist, Open: open, Text: histString(hist, open), Cfg: cfg.Name}
+		if cfg.Name != "p012" {
+			cs.Text = "(" + cfg.Name + ") " + cs.Text
+		}
 		c.Violation(f.Sig, "bfs", fmt.Sprintf("history %s — %s", cs.Text, f.Msg), cs)
 	}
 }
@@ -1471,6 +1560,24 @@ func run(c *fw.Ctx) {
 		d1, _ = strconv.Atoi(d)
 		d2 = 0
 	}
+	// family 1: the refund schedule at service level (cheap, first)
+	schedFamily(c)
+	// family 2: histories under the configurations in which refund due heights collide
+	// (small alphabet; before the large phases so that a time cap never starves them)
+	dc := 3
+	if c.Thorough() {
+		dc = 4
+	}
+	col := collisionAlphabet()
+	c.Note("collision_phase", fmt.Sprintf("configurations pre-p012 and period-heights: alphabet of %d operation classes, all histories to depth %d", len(col), dc))
+	if os.Getenv("C20_DEPTH") == "" {
+		for _, name := range []string{"pre-p012", "period-heights"} {
+			useConfig(name)
+			phaseDeadline = time.Now().Add(time.Until(c.Deadline) * 15 / 100)
+			bfs(c, "configuration "+name, col, dc, 1)
+		}
+	}
+	useConfig("p012")
 	full := alphabet(c.Thorough())
 	c.Note("phase1", fmt.Sprintf("alphabet of %d operation classes, all histories to depth %d", len(full), d1))
 	// the first phase may use at most 65% of the time budget, the second phase the rest
@@ -1486,6 +1593,211 @@ func run(c *fw.Ctx) {
 }
 
 var phaseDeadline time.Time
+
+// collisionAlphabet: proposers (their pre-Proposal012 refunds are period-aligned) and one
+// validator class, refunds of 1 / everything / exactly the stake by the owner.
+func collisionAlphabet() []Op {
+	var ops []Op
+	for m := 0; m < 2; m++ {
+		for a := 0; a < 2; a++ {
+			ops = append(ops, Op{K: "apply", M: m, A: a, T: 1, S: 2})
+		}
+		ops = append(ops, Op{K: "apply", M: m, A: 2 - 2*m, T: 0, S: 2}) // validator at 2*min: m1 by a3, m2 by a1
+		ops = append(ops, Op{K: "apply", M: m, A: 3, T: 1, S: 1})
+		ops = append(ops, Op{K: "add", M: m, S: 1})
+		ops = append(ops, Op{K: "refund", M: m, S: 0}, Op{K: "refund", M: m, S: 1}, Op{K: "refund", M: m, S: 4})
+		ops = append(ops, Op{K: "chg", M: m, A: 0}, Op{K: "chg", M: m, A: 1})
+	}
+	ops = append(ops, Op{K: "release"})
+	return ops
+}
+
+// ---------------------------------------------------------------------------------
+// family 1: RefundManager.Add / CheckAndMove at service level
+
+type addStep struct {
+	H int `json:"h"` // due height index
+	A int `json:"a"` // account index (a1, a2)
+	V int `json:"v"` // value index
+}
+
+var (
+	schedHeights = []uint64{77000, 77001}
+	schedValues  = []*big.Int{big.NewInt(1), new(big.Int).Set(unit), new(big.Int).Add(new(big.Int).Mul(big.NewInt(500), unit), big.NewInt(3))}
+)
+
+func schedString(steps []addStep, flush bool) string {
+	var p []string
+	for _, st := range steps {
+		p = append(p, fmt.Sprintf("Add(due %d, a%d, %s)", schedHeights[st.H], st.A+1, schedValues[st.V]))
+	}
+	r := strings.Join(p, "; ")
+	if flush {
+		r += " (IntermediateRoot after every call)"
+	}
+	return r + "; CheckAndMove at both heights"
+}
+
+// runSched: every step is a separate RefundManager.Add call; afterwards CheckAndMove at
+// each due height.  Oracle: scheduled amount per (height, account) = sum of its credits;
+// CheckAndMove credits exactly that sum and clears the slot; liquid + scheduled is constant
+// across CheckAndMove.
+func runSched(steps []addStep, flush bool) []finding {
+	var fs []finding
+	add := func(sig, format string, a ...interface{}) {
+		for _, f := range fs {
+			if f.Sig == sig {
+				return
+			}
+		}
+		fs = append(fs, finding{Sig: sig, Msg: fmt.Sprintf(format, a...), Diverged: true})
+	}
+	w := newWorld()
+	want := map[uint64]map[string]*big.Int{}
+	for _, h := range schedHeights {
+		want[h] = map[string]*big.Int{}
+	}
+	slots := func() map[uint64]map[string]*big.Int {
+		out := map[uint64]map[string]*big.Int{}
+		for _, h := range schedHeights {
+			out[h] = w.escrow(h)
+		}
+		return out
+	}
+	compare := func(when string) {
+		got := slots()
+		for _, h := range schedHeights {
+			keys := map[string]bool{}
+			for a := range got[h] {
+				keys[a] = true
+			}
+			for a := range want[h] {
+				keys[a] = true
+			}
+			for a := range keys {
+				g, x := got[h][a], want[h][a]
+				if g == nil {
+					g = new(big.Int)
+				}
+				if x == nil {
+					x = new(big.Int)
+				}
+				if g.Cmp(x) != 0 {
+					add("C20:refund-schedule:slot-sum", "%s: scheduled at due height %d for %s is %s, the credits sum to %s", when, h, tail(a), g, x)
+				}
+			}
+		}
+	}
+	total := func() *big.Int {
+		t := new(big.Int)
+		for _, a := range watchAccts {
+			t.Add(t, w.db.GetBalance(addrOf(a)))
+		}
+		for _, l := range slots() {
+			for _, v := range l {
+				t.Add(t, v)
+			}
+		}
+		return t
+	}
+	for i, st := range steps {
+		h, a, v := schedHeights[st.H], acctHex[st.A], schedValues[st.V]
+		data := map[uint64]types.RefundInfoList{h: {List: []*types.RefundInfo{{Value: new(big.Int).Set(v), Id: unhx(a)}}}}
+		service.RefundManagerImpl.Add(data, w.db)
+		if flush {
+			w.db.IntermediateRoot(true)
+		}
+		if want[h][a] == nil {
+			want[h][a] = new(big.Int)
+		}
+		want[h][a].Add(want[h][a], v)
+		compare(fmt.Sprintf("after call %d", i+1))
+	}
+	for _, h := range schedHeights {
+		before := map[string]*big.Int{}
+		for _, a := range watchAccts {
+			before[a] = new(big.Int).Set(w.db.GetBalance(addrOf(a)))
+		}
+		t0 := total()
+		scheduled := w.escrow(h)
+		service.RefundManagerImpl.CheckAndMove(h, w.db)
+		if flush {
+			w.db.IntermediateRoot(true)
+		}
+		for _, a := range watchAccts {
+			credited := new(big.Int).Sub(w.db.GetBalance(addrOf(a)), before[a])
+			x := want[h][a]
+			if x == nil {
+				x = new(big.Int)
+			}
+			if credited.Cmp(x) != 0 {
+				sc := scheduled[a]
+				if sc == nil {
+					sc = new(big.Int)
+				}
+				add("C20:refund-schedule:release", "CheckAndMove(%d) credits %s to %s, the credits sum to %s (scheduled %s)", h, credited, tail(a), x, sc)
+			}
+		}
+		if t1 := total(); t1.Cmp(t0) != 0 {
+			add("C20:refund-schedule:conservation", "liquid + scheduled changes by %s across CheckAndMove(%d)", new(big.Int).Sub(t1, t0), h)
+		}
+		want[h] = map[string]*big.Int{}
+		compare(fmt.Sprintf("after CheckAndMove(%d)", h))
+	}
+	return fs
+}
+
+func schedFamily(c *fw.Ctx) {
+	var syms []addStep
+	for h := 0; h < 2; h++ {
+		for a := 0; a < 2; a++ {
+			for v := 0; v < 3; v++ {
+				syms = append(syms, addStep{h, a, v})
+			}
+		}
+	}
+	var idx int64
+	var rec func(prefix []addStep)
+	rec = func(prefix []addStep) {
+		if len(prefix) > 0 {
+			for _, flush := range []bool{false, true} {
+				idx++
+				if !c.Mine(idx) {
+					continue
+				}
+				steps := append([]addStep{}, prefix...)
+				fs := runSched(steps, flush)
+				c.Eval(1)
+				c.Trace(1)
+				c.NontrivialN(1)
+				c.Count("refund_schedule_sequences", 1)
+				same := 0
+				for _, st := range steps[1:] {
+					if st.H == steps[0].H && st.A == steps[0].A {
+						same++
+					}
+				}
+				c.Outcome(fmt.Sprintf("refund-schedule/len%d/first-slot-hit-%d-times", len(steps), same+1))
+				if len(fs) > 0 {
+					again := runSched(steps, flush)
+					if sigSet(again) != sigSet(fs) {
+						harnessFail("observation not reproducible for %s", schedString(steps, flush))
+					}
+					for _, f := range fs {
+						c.Violation(f.Sig, "refund-schedule", fmt.Sprintf("%s — %s", schedString(steps, flush), f.Msg), Case{Sched: steps, Flush: flush, Open: -1})
+					}
+				}
+			}
+		}
+		if len(prefix) == 3 {
+			return
+		}
+		for _, sy := range syms {
+			rec(append(append([]addStep{}, prefix...), sy))
+		}
+	}
+	rec(nil)
+}
 
 func peakRSSMB() int {
 	b, _ := os.ReadFile("/proc/self/status")
@@ -1592,6 +1904,13 @@ func replay(c *fw.Ctx, raw json.RawMessage) {
 		harnessFail("replay: %v", err)
 	}
 	setup()
+	if len(cs.Sched) > 0 {
+		for _, f := range runSched(cs.Sched, cs.Flush) {
+			c.Violation(f.Sig, "replay", fmt.Sprintf("%s — %s", schedString(cs.Sched, cs.Flush), f.Msg), cs)
+		}
+		return
+	}
+	useConfig(cs.Cfg)
 	var pre, preSeal map[string]string
 	seen := map[string]bool{}
 	for k := 0; k <= len(cs.Hist); k++ {
@@ -1619,12 +1938,14 @@ func main() {
 	fw.Main(fw.Check{
 		ID: "C20", Level: "model_checking",
 		Rule: "BFS over histories of miner transactions (apply/add/refund/change-account/release over 2 miner ids x 3 plain accounts + 1 account with code, " +
-			"each history in two packings: one transaction per block, or the last k transactions in one block); a state is the canonical dump of " +
+			"each history in two packings: one transaction per block, or the last k transactions in one block; additionally a small alphabet under two configurations in which refund due heights collide, " +
+			"and all sequences of <= 3 separate RefundManager.Add calls over 2 due heights x 2 accounts x 3 values followed by CheckAndMove); a state is the canonical dump of " +
 			"the registry storage (cached slots + committed trie of both registry accounts), escrow records and fee-free balances plus the model state; " +
 			"counted as non-trivial: distinct states that hold at least one harness-created miner record or a scheduled refund " +
 			"(the `states` counter is per worker, distinct_nontrivial is de-duplicated across workers)",
 		Assumptions: []string{
 			"dev genesis (2 proposers, 3 validators), all forks active, heights >= 1000; block headers carry no group id, so no block reward is minted",
+			"extra configurations: Proposal012 inactive (proposer refunds due at the end of the reward period) and block heights that are multiples of the reward period",
 			"blocks are executed by core.VerifExecuteBlock on one AccountDB with IntermediateRoot between blocks (no commit / reopen)",
 			"the state between two transactions of a block is observed with a harness loop over the real executors; its final root is compared with the block executor's on every history",
 			"harness accounts start with x.5 tokens: the 0.001 fees never decide a balance check, which justifies the fee-insensitive search key",
